@@ -276,7 +276,7 @@ def decode(raw, version=V311, strict=True, direction=None, semantic=True):
         pkt["dup"] = bool(flags & 8)
         pkt["qos"] = qos
         pkt["retain"] = bool(flags & 1)
-        if strict and qos == 0 and pkt["dup"]:
+        if strict and semantic and qos == 0 and pkt["dup"]:
             raise Malformed("DUP set on QoS 0 PUBLISH")
         pkt["topic"] = rd.utf8(nul_ok=not semantic)
         if strict and semantic and (pkt["topic"] == "" ):
